@@ -1,17 +1,28 @@
 (** C12 — Every failure maps to the response class of its kind, never to success.
-    Property theorems only; proofs are in C12/Proofs.v (and Base/ErrChain.v).
+    Property theorems only; proofs are in C12/Proofs.v, C12/StackProofs.v, C12/EvalSound.v
+    (and Base/ErrChain.v).  The specification is C12/Spec.v: it uses no function of the model.
 
-    [http_handle] / [grpc_handle] are the two error translators (HandleError and
-    the gRPC interceptor), transcribed switch by switch; [http_respond] /
-    [grpc_respond] are the complete paths of a failure through the decision / proxy
-    service (recovery middleware, service handler, Finalize) and the Envoy gRPC
-    service.  Error values are arbitrary trees ([Base.ErrChain.err]): sentinels,
-    redirect errors, CEL evaluation errors, foreign leaves, fmt %w wrappers,
-    errors.Join, heimdall error chains, nested without bound.
+    Model: [http_handle] / [grpc_handle] are the two error translators (HandleError and the
+    gRPC interceptor), transcribed switch by switch; [entry_http fx proxy from_file] /
+    [entry_grpc fx from_file] are the complete paths of a failure: respond configuration
+    as loaded ([loaded]), the rule's error handler list with conditions and rule-level
+    configuration ([run_handlers]), Finalize (incl. the proxy's own failures), service
+    handler, recovery middleware / interceptor, translator; [fx] says which repairs
+    (fixes/C12-F1.diff, fixes/C12-F4.diff) the tree contains.  Error values are arbitrary
+    trees ([Base.ErrChain.err]).
 
-    Findings: C12-F1 (guard [guard_F1]: handled by a www_authenticate handler),
-    C12-F2 (guard [guard_F2]: the status to send is not a three-digit code). *)
-From HV Require Import Base.Prelude Base.ErrChain C12.Model C12.Proofs.
+    Specification: [demand_of sc] = the admissible kinds of the failure (+ the realm a
+    challenge has to name); [seen_ok c nv hyp d s] = what the client sees is the response of
+    such a kind (status or its override, Location), is no success status (under [hyp]: no
+    override / redirect code involved is 1xx/2xx), carries details only when verbose, in
+    a content type the Accept header admits ([nv]), well-formed, and names the realm;
+    [same_reply] = "identically".  [seen_ok_w w] = the same with the clauses [w] waived.
+
+    Findings (guards): C12-F1 [xguard_F1] (a WWW-Authenticate header is demanded), C12-F2
+    [xguard_F2] / [guard_F2] (the status to send is no three-digit code), C12-F4
+    [xguard_F4] (precondition override from a configuration file). *)
+From HV Require Import Base.Prelude Base.ErrChain C12.Model C12.Inputs C12.Spec C12.Stack C12.Proofs C12.StackProofs
+  Run.Eval_C12 C12.EvalSound.
 Local Open Scope Z_scope.
 
 (** Go's errors.Is over a tree is "some leaf answers the target", errors.As finds
@@ -22,11 +33,13 @@ Theorem C12_errors_is_as_leaves : forall t e,
 Proof. intros t e. split; [apply is_leaves | apply as_redirect_leaves]. Qed.
 Print Assumptions C12_errors_is_as_leaves.
 
+(** ** the two translators *)
+
 (** the first kind in the precedence order authentication, authorization,
     communication/timeout, precondition, no rule, redirect, other that occurs
     anywhere in the error value decides; the status is 401/403/502/400/404/the
     redirect's code/500 or the override of that kind; a redirect carries its
-    Location; HTTP and gRPC alike, the gRPC code being the one of the kind *)
+    Location; HTTP and gRPC alike *)
 Theorem C12_kind_table : forall c o e,
   guard_F2 c e = false ->
   (exists h b, http_handle c o e no_hdrs = HResp (spec_status c e) h b /\ h_location h = spec_location e) /\
@@ -42,6 +55,23 @@ Theorem C12_same_status : forall c o e,
 Proof. exact same_status. Qed.
 Print Assumptions C12_same_status.
 
+(** every clause of the statement for both translators, on every input; [twaiver] waives the
+    status clause inside C12-F2 / C12-F4 and nothing outside *)
+Theorem C12_translators_meet_spec : forall fx file c o nv e,
+  oracle_ok nv o = true ->
+  seen_ok_w (twaiver fx file c e) c nv (thyp c e) (tdemand e)
+            (seen_of_hresp (http_handle (loaded fx file c) o e no_hdrs)) = true /\
+  seen_ok_w (twaiver fx file c e) c nv (thyp c e) (tdemand e)
+            (seen_of_ghandle (grpc_handle (loaded fx file c) o e)) = true /\
+  (guard_F2 (loaded fx file c) e = false ->
+   same_reply (seen_of_hresp (http_handle (loaded fx file c) o e no_hdrs))
+              (seen_of_ghandle (grpc_handle (loaded fx file c) o e)) = true).
+Proof.
+  intros. split; [apply http_translator_meets_spec; assumption|].
+  split; [apply grpc_translator_meets_spec; assumption | apply translators_same].
+Qed.
+Print Assumptions C12_translators_meet_spec.
+
 Theorem C12_F2_refuted :
   exists c o e, guard_F2 c e = true /\
     http_status (http_handle c o e no_hdrs) <> option_map g_status (grpc_handle c o e).
@@ -49,7 +79,8 @@ Proof. exact F2_refuted. Qed.
 Print Assumptions C12_F2_refuted.
 
 (** no translator ever answers a failure with a success status (1xx/2xx) or an OK
-    gRPC code — provided no override and no redirect code is such a status *)
+    gRPC code — provided no override and no redirect code is such a status;
+    this holds inside C12-F2 as well *)
 Theorem C12_never_success : forall c o e h,
   overrides_not_success c -> redirects_not_success e ->
   match http_handle c o e h with HResp s _ _ => success_like s = false | HPanic _ => True end /\
@@ -60,8 +91,6 @@ Theorem C12_never_success : forall c o e h,
 Proof. exact never_success. Qed.
 Print Assumptions C12_never_success.
 
-(** ... and the same through the entry points, for returned errors, errors handled
-    by any error handler mechanism, and panics: never a positive answer *)
 Theorem C12_never_success_stack : forall c o sc,
   overrides_not_success c -> scenario_redirects_not_success sc ->
   match http_respond c o sc with
@@ -78,15 +107,16 @@ Proof. exact never_success_stack. Qed.
 Print Assumptions C12_never_success_stack.
 
 (** the hypotheses are needed: `authentication_error: {code: 200}` is accepted
-    configuration and turns a 401 into a 200 on both translators *)
+    configuration (heimdall's own unit tests configure 100 Continue) and turns a 401
+    into a 200 on both translators: "or the status configured for that kind" *)
 Theorem C12_success_override_possible :
   exists c o e, http_status (http_handle c o e no_hdrs) = Some 200 /\
                 option_map g_status (grpc_handle c o e) = Some 200.
 Proof. exact success_override_possible. Qed.
 Print Assumptions C12_success_override_possible.
 
-(** a body (and a Content-Type) only with verbose responses, in the negotiated
-    content type (gRPC falls back to text/html when negotiation fails) *)
+(** a body (and a Content-Type) only with verbose responses, in the type the
+    translator negotiated (gRPC falls back to text/html when negotiation fails) *)
 Theorem C12_body_only_if_verbose : forall c o e,
   (forall s h b, http_handle c o e no_hdrs = HResp s h b ->
      (b = true -> c_verbose c = true) /\
@@ -107,22 +137,66 @@ Theorem C12_redirect_has_location : forall c o e code to,
 Proof. exact redirect_has_location. Qed.
 Print Assumptions C12_redirect_has_location.
 
-(** a failure handled by a redirect error handler: the handler's code (302 when
-    unset) and the rendered URL as Location, on every entry point *)
-Theorem C12_redirect_handler_response : forall c o code url cause,
-  (valid_code (redirect_status code) = true ->
-     http_respond c o (ScHandled (MRedirect code (Some url)) cause) =
-       HFinal (redirect_status code) {| h_location := Some url; h_www := None; h_ctype := None |} false) /\
-  grpc_respond c o (ScHandled (MRedirect code (Some url)) cause) =
-    GDenied {| g_code := GFailedPrecondition; g_status := redirect_status code;
-               g_hdrs := {| h_location := Some url; h_www := None; h_ctype := None |}; g_body := false |}.
-Proof. exact redirect_handler_response. Qed.
-Print Assumptions C12_redirect_handler_response.
+(** ** through the entry points *)
+
+(** T_main: outside the guards of the open findings every answer of the decision service,
+    the proxy service and the Envoy gRPC service to a failed request — an error returned by the
+    executor, a failure handled by ANY list of conditional default / redirect /
+    www_authenticate handlers with rule-level configuration, a panic, a failure of the proxy's
+    own Finalize; configuration filled in directly or loaded from a file — satisfies every
+    clause of the statement, identically on the three entry points *)
+Theorem C12_entry_points_meet_spec : forall fx file c o nv sc,
+  oracle_ok nv o = true ->
+  xguard_F1 fx sc = false -> xguard_F2 (loaded fx file c) sc = false ->
+  xguard_F4 fx file c (d_classes (demand_of sc)) = false ->
+  (forall proxy, match sc with XProxy _ => proxy = true | _ => True end ->
+     seen_ok c nv (hyp_never_success c sc) (demand_of sc) (seen_of_hfinal (entry_http fx proxy file c o sc)) = true) /\
+  match sc with
+  | XProxy _ => True
+  | _ => seen_ok c nv (hyp_never_success c sc) (demand_of sc) (seen_of_gfinal (entry_grpc fx file c o sc)) = true /\
+         (forall proxy, same_reply (seen_of_hfinal (entry_http fx proxy file c o sc))
+                                   (seen_of_gfinal (entry_grpc fx file c o sc)) = true) /\
+         entry_http fx true file c o sc = entry_http fx false file c o sc
+  end.
+Proof. exact entry_points_meet_spec. Qed.
+Print Assumptions C12_entry_points_meet_spec.
+
+(** ... and INSIDE the guards everything holds except the clause the finding breaks
+    ([xwaiver]: C12-F1 waives only the WWW-Authenticate clause — status 401 / override, no
+    success status, details only when verbose still hold; C12-F2 and C12-F4 waive only
+    "the status (and Location) of its kind", and admit a dropped connection) *)
+Theorem C12_entry_points_inside_guards : forall fx file c o nv sc,
+  oracle_ok nv o = true ->
+  (forall proxy, match sc with XProxy _ => proxy = true | _ => True end ->
+     seen_ok_w (xwaiver fx file c sc) c nv (hyp_never_success c sc) (demand_of sc)
+               (seen_of_hfinal (entry_http fx proxy file c o sc)) = true) /\
+  (match sc with XProxy _ => False | _ => True end ->
+     seen_ok_w (xwaiver fx file c sc) c nv (hyp_never_success c sc) (demand_of sc)
+               (seen_of_gfinal (entry_grpc fx file c o sc)) = true).
+Proof.
+  intros. split; [intros; apply http_entry_meets_spec; assumption | intro; apply grpc_entry_meets_spec; assumption].
+Qed.
+Print Assumptions C12_entry_points_inside_guards.
+
+(** a rule's error handler list never makes a failure disappear, and what it leaves for the
+    translator is of the kind the statement demands for the first applicable handler *)
+Theorem C12_handlers_never_swallow : forall hs cause,
+  exists e, final_error (run_handlers hs cause) = Some e /\
+            d_classes (demand_of (XFail hs cause)) = [spec_class e].
+Proof. exact handlers_never_swallow. Qed.
+Print Assumptions C12_handlers_never_swallow.
+
+(** the www_authenticate handler that decides hands exactly one challenge to the request
+    context, and it names the configured realm (the rule's, else the prototype's) — where
+    finding C12-F1 then loses it *)
+Theorem C12_www_authenticate_challenge : forall sc realm,
+  d_realm (demand_of sc) = Some realm ->
+  exists v, x_challenge sc = Some v /\ x_challenges sc = [v] /\ contains realm v = true.
+Proof. exact x_challenge_names. Qed.
+Print Assumptions C12_www_authenticate_challenge.
 
 (** a redirect handler created by the loader (any configuration source) has a code
-    in 300..399, 302 when unset: valid, never a success status; its answer is
-    that code with the rendered URL as Location.  Codes such as 200, 5, -1, 1000
-    cannot be configured any more (fix: 6c5864d) *)
+    in 300..399, 302 when unset: valid, never a success status (fix: 6c5864d) *)
 Theorem C12_redirect_handler_code_is_3xx : forall c o code to m cause,
   create_redirect code to = Some m ->
   m = MRedirect code to /\ 300 <= redirect_status code <= 399 /\
@@ -134,48 +208,8 @@ Theorem C12_redirect_handler_code_is_3xx : forall c o code to m cause,
 Proof. exact created_redirect_code. Qed.
 Print Assumptions C12_redirect_handler_code_is_3xx.
 
-Theorem C12_success_redirect_not_creatable : forall to,
-  create_redirect 200 to = None /\ create_redirect 5 to = None /\ create_redirect (-1) to = None /\
-  create_redirect 1000 to = None /\ create_redirect 299 to = None /\ create_redirect 400 to = None /\
-  create_redirect 300 to = Some (MRedirect 300 to) /\ create_redirect 399 to = Some (MRedirect 399 to) /\
-  create_redirect 0 to = Some (MRedirect 0 to).
-Proof. exact success_redirect_not_creatable. Qed.
-Print Assumptions C12_success_redirect_not_creatable.
-
-(** a failure handled by a www_authenticate handler gets the authentication status ... *)
-Theorem C12_www_authenticate_status : forall c o realm cause,
-  (valid_code (http_code (ov_authn c) 401) = true ->
-     exists h b, http_respond c o (ScHandled (MWWW realm) cause) = HFinal (http_code (ov_authn c) 401) h b) /\
-  exists d, grpc_respond c o (ScHandled (MWWW realm) cause) = GDenied d /\
-            g_code d = GUnauthenticated /\ g_status d = grpc_code (ov_authn c) 401.
-Proof. exact www_authenticate_status. Qed.
-Print Assumptions C12_www_authenticate_status.
-
-(** the www_authenticate handler itself produces the challenge naming the
-    configured realm and hands it to the request context (where finding C12-F1
-    loses it) *)
-Theorem C12_www_authenticate_challenge : forall m cause,
-  hd_upstream (mech_exec m cause) =
-  match m with
-  | MWWW realm => [("WWW-Authenticate"%string, ("Basic realm=" ++ effective_realm realm)%string)]
-  | _ => []
-  end.
-Proof. exact www_challenge_recorded. Qed.
-Print Assumptions C12_www_authenticate_challenge.
-
-(** ... every handled failure carries the headers the statement demands of its
-    handler (Location / WWW-Authenticate naming the realm) outside finding C12-F1 ... *)
-Theorem C12_www_authenticate_has_header : forall c o m cause,
-  guard_F1 m = false ->
-  (forall s h b, valid_code (match m with MRedirect code _ => redirect_status code | _ => 100 end) = true ->
-     http_respond c o (ScHandled m cause) = HFinal s h b ->
-     match m with MRedirect _ (Some _) => demanded_headers m h | _ => True end) /\
-  (forall d, grpc_respond c o (ScHandled m cause) = GDenied d -> demanded_headers m (g_hdrs d)).
-Proof. exact handler_headers. Qed.
-Print Assumptions C12_www_authenticate_has_header.
-
-(** ... and inside it the header is missing: in fact no response of any entry
-    point ever carries a WWW-Authenticate header *)
+(** C12-F1: the guard is needed — in the tree as it is no response of any entry point ever
+    carries a WWW-Authenticate header *)
 Theorem C12_F1_refuted :
   exists c o m cause, guard_F1 m = true /\
     (forall s h b, http_respond c o (ScHandled m cause) = HFinal s h b -> ~ demanded_headers m h) /\
@@ -191,45 +225,44 @@ Theorem C12_F1_header_never_written : forall c o sc,
 Proof. exact www_header_never_written. Qed.
 Print Assumptions C12_F1_header_never_written.
 
-(** with the candidate repair of C12-F1 (fixes/C12-F1.diff; model variant
-    [fixed = true], which `bin/check C12` runs against once the repair is applied)
-    the header theorem holds without guard, and nothing but that header changes *)
-Theorem C12_www_authenticate_has_header_fixed : forall c o realm cause,
-  (forall s h b, http_respond_f true c o (ScHandled (MWWW realm) cause) = HFinal s h b ->
-     h_www h = Some ("Basic realm=" ++ effective_realm realm)%string) /\
-  (forall d, grpc_respond_f true c o (ScHandled (MWWW realm) cause) = GDenied d ->
-     h_www (g_hdrs d) = Some ("Basic realm=" ++ effective_realm realm)%string) /\
-  (exists d, grpc_respond_f true c o (ScHandled (MWWW realm) cause) = GDenied d /\
-             g_code d = GUnauthenticated /\ g_status d = grpc_code (ov_authn c) 401) /\
-  (valid_code (http_code (ov_authn c) 401) = true ->
-     exists h b, http_respond_f true c o (ScHandled (MWWW realm) cause) = HFinal (http_code (ov_authn c) 401) h b).
-Proof. exact www_authenticate_has_header_fixed. Qed.
-Print Assumptions C12_www_authenticate_has_header_fixed.
+(** C12-F4: the guard is needed — `precondition_error: {code: 418}` in a configuration file:
+    400 on all entry points; 418 when the struct is filled directly or the loader is repaired *)
+Theorem C12_F4_refuted :
+  xguard_F4 unrepaired true f4_cfg (d_classes (demand_of f4_sc)) = true /\
+  xguard_F1 unrepaired f4_sc = false /\ xguard_F2 (loaded unrepaired true f4_cfg) f4_sc = false /\
+  oracle_ok free_view any_oracle = true /\
+  seen_ok f4_cfg free_view (hyp_never_success f4_cfg f4_sc) (demand_of f4_sc)
+          (seen_of_hfinal (entry_http unrepaired false true f4_cfg any_oracle f4_sc)) = false /\
+  seen_ok f4_cfg free_view (hyp_never_success f4_cfg f4_sc) (demand_of f4_sc)
+          (seen_of_gfinal (entry_grpc unrepaired true f4_cfg any_oracle f4_sc)) = false /\
+  seen_ok f4_cfg free_view (hyp_never_success f4_cfg f4_sc) (demand_of f4_sc)
+          (seen_of_hfinal (entry_http unrepaired false false f4_cfg any_oracle f4_sc)) = true /\
+  seen_ok f4_cfg free_view (hyp_never_success f4_cfg f4_sc) (demand_of f4_sc)
+          (seen_of_hfinal (entry_http {| fx1 := false; fx4 := true |} false true f4_cfg any_oracle f4_sc)) = true.
+Proof. exact F4_refuted. Qed.
+Print Assumptions C12_F4_refuted.
 
-Theorem C12_fix_only_adds_challenge : forall c o sc,
-  (match http_respond c o sc, http_respond_f true c o sc with
-   | HFinal s h b, HFinal s' h' b' =>
-       s = s' /\ b = b' /\ h_location h = h_location h' /\ h_ctype h = h_ctype h' /\
-       (h_www h' = h_www h \/ h_www h' = challenge_of sc)
-   | HAbort, HAbort | HPositive, HPositive => True
-   | _, _ => False
-   end) /\
-  (match sc with ScHandled (MWWW _) _ => True | _ => http_respond_f true c o sc = http_respond c o sc /\
-                                                      grpc_respond_f true c o sc = grpc_respond c o sc end) /\
-  http_respond_f false c o sc = http_respond c o sc /\ grpc_respond_f false c o sc = grpc_respond c o sc.
-Proof. exact fixed_only_adds_challenge. Qed.
-Print Assumptions C12_fix_only_adds_challenge.
+(** the entry-point level model extends the scenarios of C12/Model.v (which C01 builds on) *)
+Theorem C12_stack_extends_model : forall c o sc,
+  x_http_respond false c o (x_of sc) = http_respond c o sc /\
+  x_http_respond true c o (x_of sc) = http_respond c o sc /\
+  x_grpc_respond c o (x_of sc) = grpc_respond c o sc.
+Proof. exact stack_extends_model. Qed.
+Print Assumptions C12_stack_extends_model.
 
-(** a panic: internal-error class over HTTP, a gRPC Internal status under Envoy *)
-Theorem C12_panic_response : forall c o,
-  (valid_code (http_code (ov_internal c) 500) = true ->
-     exists h b, http_respond c o (ScPanic None) = HFinal (http_code (ov_internal c) 500) h b) /\
-  grpc_respond c o (ScPanic None) = GStatusErr GInternal.
-Proof. exact panic_response. Qed.
-Print Assumptions C12_panic_response.
+(** ** the evaluator of the correspondence run is sound for these theorems: whenever the
+    observations correspond to the model and the negotiation oracle is sane, the property
+    predicate holds on the OBSERVATIONS (all of it when no guard fires) *)
+Theorem C12_eval_sound : forall fx k,
+  corr fx k = true -> oracle_ok (k_nv k) (k_or k) = true ->
+  prop_w (waived fx k) k = true /\ (v_guards (check fx k) = [] -> prop k = true).
+Proof.
+  intros fx k C OK. split; [apply eval_sound; assumption | apply eval_sound_unguarded; assumption].
+Qed.
+Print Assumptions C12_eval_sound.
 
 (** non-vacuity: a nested chain mixing internal, foreign, authorization and
-    redirect errors under an authorization override of 470 *)
+    redirect errors under an authorization override of 470 ... *)
 Example C12_nonvacuous :
   let c := {| c_verbose := true; ov_authn := 0; ov_authz := 470; ov_comm := 0; ov_precond := 0;
               ov_norule := 0; ov_internal := 0 |} in
@@ -240,3 +273,21 @@ Example C12_nonvacuous :
   http_handle c any_oracle e no_hdrs =
     HResp 470 {| h_location := None; h_www := None; h_ctype := Some Html |} true.
 Proof. exact nonvacuous. Qed.
+
+(** ... and a rule whose first handler does not apply and whose second one redirects,
+    configuration from a file: the hypotheses of C12_entry_points_meet_spec hold *)
+Example C12_nonvacuous_entry :
+  let c := {| c_verbose := true; ov_authn := 0; ov_authz := 470; ov_comm := 0; ov_precond := 0;
+              ov_norule := 0; ov_internal := 503 |} in
+  let cause := Chain [Sentinel KInternal; WrapW (JoinW [Foreign 5%nat; Chain [Sentinel KAuthorization] true])] false in
+  let sc := XFail [ {| x_applies := false; x_mech := MWWW "r"; x_conf := WcNone |};
+                    {| x_applies := true; x_mech := MRedirect 307 (Some "http://idp/login"%string); x_conf := WcNone |} ] cause in
+  let nv := {| nv_free := false; nv_allowed := [Html]; nv_other := [] |} in
+  oracle_ok nv any_oracle = false /\
+  oracle_ok nv (ne_always {| o_neg_http := Some Html; o_neg_grpc := Some Html; o_json_ne := true; o_xml_ne := true; o_plain_ne := true |}) = true /\
+  xguard_F1 unrepaired sc = false /\ xguard_F2 (loaded unrepaired true c) sc = false /\
+  xguard_F4 unrepaired true c (d_classes (demand_of sc)) = false /\
+  demand_of sc = {| d_classes := [ClRedirect 307 "http://idp/login"]; d_realm := None; d_hard := false |} /\
+  entry_http unrepaired true true c any_oracle sc =
+    HFinal 307 {| h_location := Some "http://idp/login"%string; h_www := None; h_ctype := None |} false.
+Proof. exact nonvacuous_entry. Qed.
